@@ -76,6 +76,14 @@ def _function_keyed_tables():
         if real in cg.reductions_map:
             cg.reductions_map[getattr(symnp, real_name)] = cg.reductions_map[real]
     APPLIED.append("computation_graph.reductions_map also keyed by the proxy's sum/histogram function objects")
+    # npstructures dispatches its __array_function__ through a table keyed by the real NumPy functions
+    import npstructures.arrayfunctions as af
+    for real in list(af.HANDLED_FUNCTIONS):
+        name = getattr(real, "__name__", None)
+        prox = getattr(symnp, name, None) if name else None
+        if prox is not None and prox is not real:
+            af.HANDLED_FUNCTIONS[prox] = af.HANDLED_FUNCTIONS[real]
+    APPLIED.append("npstructures HANDLED_FUNCTIONS also keyed by the proxy's function objects")
 
 
 def _npsarray():
